@@ -29,6 +29,8 @@ func TestMain(m *testing.M) { vt.Main(m) }
 
 type Script struct {
 	Code    string `json:"code"` // "" = no OCI code at all
+	// EmptyCodeError: with Code "", build an ociregistry.Error whose code is empty (it can still carry a detail)
+	EmptyCodeError bool `json:"empty_code_error,omitempty"`
 	Message string `json:"message"`
 	Detail  string `json:"detail,omitempty"` // JSON text or ""
 	// Wraps, applied inside-out: "w" = fmt %w with a prefix, "h<status>" = NewHTTPError(status)
@@ -60,7 +62,7 @@ func isHead(c string) bool { return strings.HasPrefix(c, "Resolve") }
 
 func (s Script) build() error {
 	var err error
-	if s.Code == "" {
+	if s.Code == "" && !s.EmptyCodeError {
 		err = errors.New(s.Message)
 	} else {
 		var d json.RawMessage
@@ -319,7 +321,7 @@ func run(s Script, v *vt.V) {
 			v.Failf("code-changed", "%s: code on the wire %q, want %q", desc, o.code, wantCode)
 			return
 		}
-		if s.Code != "" && !jsonEqual(o.detail, []byte(s.Detail)) {
+		if (s.Code != "" || s.EmptyCodeError) && !jsonEqual(o.detail, []byte(s.Detail)) {
 			v.Failf("detail-changed", "%s: detail %s, want %s", desc, o.detail, s.Detail)
 			return
 		}
@@ -340,6 +342,8 @@ func run(s Script, v *vt.V) {
 	}
 	msgClass := "plain"
 	switch {
+	case len(s.Message) > 8000:
+		msgClass = "limit-sized"
 	case s.Message == "":
 		msgClass = "empty"
 	case strings.Contains(s.Message, ": "):
@@ -401,8 +405,30 @@ func genScript(t *rapid.T) Script {
 	default:
 		s.Message = "plain message"
 	}
-	if s.Code != "" && rapid.IntRange(0, 2).Draw(t, "hasDetail") == 0 {
+	if s.Code == "" && rapid.Bool().Draw(t, "emptyCodeError") {
+		s.EmptyCodeError = true
+	}
+	if (s.Code != "" || s.EmptyCodeError) && rapid.IntRange(0, 2).Draw(t, "hasDetail") == 0 {
 		s.Detail = rapid.SampledFrom([]string{`{"a":1}`, `[1,2,{"b":null}]`, `"text"`, `42`, `{"nested":{"k":["v",true]},"u":"é"}`, `null`, `{ "spaced" : [ 1 , 2 ] }`, `""`}).Draw(t, "detail")
+	}
+	if rapid.IntRange(0, 11).Draw(t, "limitSized") == 0 {
+		// an error body of exactly (or one less than) the client's documented 8 KiB limit
+		// (a bare error: wrappers and the "(no code)" rendering would add to the message)
+		s.Wraps, s.EmptyCodeError = nil, false
+		if s.Code == "" {
+			s.Detail = ""
+		}
+		wireCode := s.Code
+		if wireCode == "" {
+			wireCode = "UNKNOWN"
+		}
+		overhead := len(`{"errors":[{"code":"","message":""}]}`) + len(wireCode)
+		if s.Detail != "" {
+			var buf bytes.Buffer
+			json.Compact(&buf, []byte(s.Detail))
+			overhead += len(`,"detail":`) + buf.Len()
+		}
+		s.Message = strings.Repeat("m", 8192-overhead-rapid.IntRange(0, 1).Draw(t, "underLimit"))
 	}
 	s.Carrier = rapid.SampledFrom(carriers).Draw(t, "carrier")
 	s.Hops = rapid.SampledFrom([]int{1, 2, 2, 3}).Draw(t, "hops")
